@@ -2,7 +2,9 @@ package wire
 
 import (
 	"context"
+	"fmt"
 	"io"
+	"net"
 
 	"github.com/lib/pq/oid"
 )
@@ -129,6 +131,14 @@ func VerifH13b() {
 	var readErr error
 	reads := 0
 	handlerErr := false
+	// FAILKINDS=1: what a handler that gives up on the COPY returns is the
+	// solver's choice: the error as it is, or its own account of it — a row that
+	// ended short, an upstream that went away (errors that wrap io.EOF,
+	// io.ErrUnexpectedEOF, net.ErrClosed). A failed COPY is reported either way.
+	failKind := 0
+	if vParam("FAILKINDS", 0) > 0 {
+		failKind = vChoose(5)
+	}
 	stmt := func(ctx context.Context, dw DataWriter, params []Parameter) error {
 		cr, err := dw.CopyIn(format)
 		if err != nil {
@@ -137,7 +147,7 @@ func VerifH13b() {
 		for {
 			if reads == stopAfter {
 				handlerErr = true
-				return errVerifExec
+				return vCopyFailure(failKind, errVerifExec)
 			}
 			reads++
 			err := cr.Read()
@@ -146,7 +156,7 @@ func VerifH13b() {
 			}
 			if err != nil {
 				readErr = err
-				return err
+				return vCopyFailure(failKind, err)
 			}
 			got = append(got, append([]byte{}, cr.Msg...))
 		}
@@ -236,6 +246,21 @@ func VerifH13b() {
 			vAssert("sync-after-cycle", e == nil && o == "Z")
 		}
 	}
+}
+
+func vCopyFailure(kind int, err error) error {
+	switch kind {
+	case 1:
+		vReach("handler-reports-a-short-row")
+		return fmt.Errorf("row ended short: %w", io.ErrUnexpectedEOF)
+	case 2:
+		return fmt.Errorf("copy target went away: %w", io.EOF)
+	case 3:
+		return fmt.Errorf("copy target went away: %w", net.ErrClosed)
+	case 4:
+		return io.ErrUnexpectedEOF
+	}
+	return err
 }
 
 // ---------------------------------------------------------------------------
@@ -448,6 +473,82 @@ func VerifH14() {
 }
 
 // ---------------------------------------------------------------------------
+// H14q — the binary COPY stream starts with the first CopyData message (C14,
+// C03): the Query (or Execute) message that starts the COPY carries surplus
+// bytes after its last field — legal, and ignored everywhere else. They belong
+// to that message: the row reader decodes exactly the tuple the client encoded
+// in its CopyData, whatever the surplus is.
+// ---------------------------------------------------------------------------
+func VerifH14q() {
+	surplus := nondetBytes(vChoose(vParam("S", 3) + 1))
+	viaExecute := nondetBool()
+	val := nondetBytes(1)
+	stream := vCat(vCopyHeader, []byte{0, 1, 0, 0, 0, 1}, val, []byte{0xff, 0xff})
+	var rows [][]any
+	var endErr error
+	stmt := func(ctx context.Context, dw DataWriter, params []Parameter) error {
+		cr, err := dw.CopyIn(BinaryFormat)
+		if err != nil {
+			return err
+		}
+		br, err := NewBinaryColumnReader(ctx, cr)
+		if err != nil {
+			return err
+		}
+		for k := 0; k < 3; k++ {
+			row, err := br.Read(ctx)
+			if err != nil {
+				endErr = err
+				break
+			}
+			rows = append(rows, row)
+		}
+		if endErr == io.EOF {
+			return dw.Complete("COPY 1")
+		}
+		return endErr
+	}
+	parse := func(ctx context.Context, query string) (PreparedStatements, error) {
+		return Prepared(NewStatement(stmt, WithColumns(vTextColumns(1)))), nil
+	}
+	var input []byte
+	steps := 1
+	if viaExecute {
+		input = vCat(vMsgBytes('P', vCat(vCStr(nil), vCStr([]byte("c")), vU16(0))),
+			vMsgBytes('B', vBindBody(nil, nil, nil)),
+			vMsgBytes('E', vCat(vCStr(nil), vU32(0), surplus)))
+		steps = 3
+	} else {
+		input = vMsgBytes('Q', vCat(vCStr([]byte("c")), surplus))
+	}
+	input = vCat(input, vMsgBytes('d', stream), vMsgBytes('c', nil))
+	srv, err := NewServer(parse, MessageBufferSize(64))
+	vAssert("newserver-ok", err == nil)
+	w := &vWorld{srv: srv}
+	w.conn = vNewConn(input)
+	w.ses, w.rd, w.wr = vSession(srv, w.conn)
+	w.ctx = vCtx(srv)
+	for i := 0; i < steps; i++ {
+		_, e := w.step()
+		vAssert("connection-stays-up", e == nil)
+	}
+	vAssert("wire-wellformed", vWireOK(w.conn.out))
+	vAssert("the-row-the-client-encoded", len(rows) == 1 && len(rows[0]) == 1)
+	if len(rows) == 1 && len(rows[0]) == 1 {
+		sv, isStr := rows[0][0].(string)
+		vAssert("the-value-the-client-encoded", isStr && vEqStr(sv, string(val)))
+	}
+	vAssert("stream-ends-cleanly", endErr == io.EOF)
+	vAssert("copy-completed", vCount(vTypes(w.conn.out), 'C') == 1 && vCount(vTypes(w.conn.out), 'E') == 0)
+	if len(surplus) > 0 {
+		vReach("surplus-after-the-last-field-of-the-starting-message")
+	}
+	if viaExecute {
+		vReach("copy-started-by-execute")
+	}
+}
+
+// ---------------------------------------------------------------------------
 // H13e — COPY-in started through the extended protocol (C13): Parse, Bind with
 // any admissible result-format codes (none, one, one per column; text or
 // binary), Execute, then CopyData messages, CopyDone or CopyFail, and Sync.
@@ -465,6 +566,10 @@ func VerifH13e() {
 	var payloads [][]byte
 	var got [][]byte
 	var readErr error
+	failKind := 0
+	if vParam("FAILKINDS", 0) > 0 {
+		failKind = vChoose(5)
+	}
 	stmt := func(ctx context.Context, dw DataWriter, params []Parameter) error {
 		cr, err := dw.CopyIn(format)
 		if err != nil {
@@ -477,7 +582,7 @@ func VerifH13e() {
 			}
 			if err != nil {
 				readErr = err
-				return err
+				return vCopyFailure(failKind, err)
 			}
 			got = append(got, append([]byte{}, cr.Msg...))
 		}
